@@ -977,7 +977,8 @@ pub fn check_step(cx: &StepCtx) -> Vec<Violation> {
                             out.push(v("C01", if d5 { "release-overallocated:n-times-slash-ge-1e18" } else { "release-overallocated" }, format!("release of {} batches allocated {} but only {} arrived", n, alloc, arrived)));
                         }
                     }
-                } else {
+                } else if !pre.paused {
+                    // (a paused hub rejects every message but the owner's UpdateParams: C11)
                     let due = {
                         // what a release now would make withdrawable: use the query (time-based)
                         cx.chain_pre.hub_withdrawable(*sender).unwrap_or(0)
